@@ -367,7 +367,11 @@ func (x *Exec) ctxFor(c *Contract, st *State, old *State, env map[string]SV, fn 
 	if pkg == nil && fn != nil && fn.Package() != nil {
 		pkg = fn.Package().Pkg
 	}
-	return &EvalCtx{x: x, st: st, old: old, env: env, pkg: pkg, sf: x.specs[c.Pkg], lets: lets, fn: fn}
+	sf := c.SF
+	if sf == nil {
+		sf = x.specs[c.Pkg]
+	}
+	return &EvalCtx{x: x, st: st, old: old, env: env, pkg: pkg, sf: sf, lets: lets, fn: fn}
 }
 
 func bindResults(env map[string]SV, sig *types.Signature, vs []Val) {
